@@ -215,9 +215,73 @@ KEEPALIVE_WRITE = dict(DEFERRED_WRITE, modifies=['self.stdout', 'G.marks'],
                        rules={'_is_dots': is_dots_rule, 'self.queue.put': queue_put_rule, 'out.strip': 'fresh:Any'})
 
 
+# ---- the immediate collector (--processes 1: a resumed layer's output is copied to the parent's stdout line by line) ----------
+# it copies the child's BYTES: the stream it writes to takes bytes, so no line of a child -- whatever bytes it holds -- can make
+# the copy raise (an exception there is turned into "subprocess for <layer>" error by spawn_layer_in_subprocess: a passing
+# run would be failed, C02; and the rest of the child's output would be lost, C06)
+AnyS = usort('Any')
+bin_ok = z3.Function('stream_takes_bytes', AnyS, z3.BoolSort())
+
+
+def stream_write_rule(E, st, node, args, kws, k):
+    """<stream>.write(bytes): TypeError iff the stream does not take bytes (a text stream)"""
+    recv = E.resolve_static(node.func.value, st)
+    out = []
+    ok = bin_ok(recv.z)
+    for s2, good in E.branch(st, ok, 'stream.write@%s' % node.lineno):
+        out += k(s2, NONE) if good else E.raise_(s2, 'TypeError')
+    return out
+stream_write_rule.__name__ = 'stream.write(bytes): raises TypeError iff the stream does not take bytes (predicate stream_takes_bytes)'
+
+
+def buffer_attr_rule(E, st, node, args, kws, k):
+    v = VObj('Any', z3.Const(fresh_name('buffer'), AnyS))
+    st.assume(bin_ok(v.z))
+    return k(st, v)
+buffer_attr_rule.__name__ = 'stream.buffer: the binary layer of a text stream (takes bytes)'
+
+
+def probe_write_rule(E, st, node, args, kws, k):
+    """stream.write(b''): the probe of _get_output_buffer -- TypeError iff the stream does not take bytes"""
+    return stream_write_rule(E, st, node, args, kws, k)
+
+
+GET_BUFFER = {
+    'property': ['C02', 'C06'], 'params': {'stream': 'Any'}, 'returns': 'Any',
+    'requires': [], 'modifies': [],
+    'ensures': ["takes_bytes(result)"],
+    'raises': {},
+    'rules': {'stream.fileno': {'kind': 'fresh', 'type': 'int', 'raises': ['UnsupportedOperation', 'AttributeError']},
+              'stream.write': stream_write_rule, 'msvcrt.setmode': 'NOEFFECT'},
+    'expr_rules': {'stream.buffer': buffer_attr_rule, "sys.platform == 'win32'": 'fresh:bool'},
+}
+IMMEDIATE_INIT = {
+    'property': ['C02', 'C06'], 'params': {'layer_name': 'Str', 'queue': 'Any'},
+    'self_fields': {'stream': 'Any'},
+    'requires': [], 'modifies': ['self.*'],
+    'ensures': ["takes_bytes(self.stream)"],
+    'raises': {},
+    'rules': {'super().__init__': 'NOEFFECT'},
+    'expr_rules': {'sys.stdout': 'fresh:Any'},
+}
+IMMEDIATE_WRITE = {
+    'property': ['C02', 'C06'], 'params': {'out': 'OutLine'}, 'self_fields': {'stream': 'Any'},
+    'requires': ["takes_bytes(self.stream)"], 'modifies': [],
+    'ensures': [],
+    'raises': {},                                        # whatever bytes the line holds
+    'rules': {'self.stream.write': stream_write_rule, 'self.stream.flush': 'NOEFFECT',
+              'out.decode': {'kind': 'fresh', 'type': 'Str', 'raises': ['UnicodeDecodeError']}},
+}
+
+
 def register(E):
     E.load_sidecar(os.path.join(HERE, 'common.py'))
     E.load_sidecar(os.path.join(HERE, 'vocab_layers.py'))
+    E.specfuncs['takes_bytes'] = lambda eng, st, x: VBool(bin_ok(x.z))
+    E.records.setdefault('runner.ImmediateSubprocessResult', {})
+    E.add_contract('runner._get_output_buffer', GET_BUFFER)
+    E.add_contract('runner.ImmediateSubprocessResult.__init__', IMMEDIATE_INIT)
+    E.add_contract('runner.ImmediateSubprocessResult.write', IMMEDIATE_WRITE)
     E.records['SchedOptions'] = {'processes': 'int', 'verbose': 'int', 'subunit': 'bool', 'subunit_v2': 'bool', 'output': 'Output'}
     for s_ in ('Thread', 'SubResult', 'Queue', 'Suite'):
         E.truthy_sorts[s_] = 'always'
